@@ -26,7 +26,11 @@ except ImportError:  # run from tools/props directly
     import travlib
 
 CORPUS = os.path.join(vlib.VERIF, "corpus", "c07")
-QUICK_ANALYSES = "taint,taint-fs,taint-ondemand,backtrace,backtrace-fs,escape,reachability,defers,maypanic"
+QUICK_ANALYSES = "taint,taint-fs,taint-ondemand,backtrace,backtrace-fs,reachability,defers,maypanic"
+ESCAPE_QUICK = {"gonil", "goroutines", "rec"}      # quick tier: the (slow) stand-alone escape analysis only on these programs
+THOROUGH_ONLY = {"bigswitch"}                      # programs on which a baseline does not return (each costs its full budget twice)
+VARIANTS = {"taint": ["taint-fs", "taint-ondemand", "taint-fs-ondemand", "taint-escape"], "backtrace": ["backtrace-fs", "backtrace-ondemand"],
+            "escape": ["taint-escape"]}
 ALL_ANALYSES = ("taint,taint-fs,taint-ondemand,taint-fs-ondemand,backtrace,backtrace-fs,backtrace-ondemand,"
                 "escape,taint-escape,reachability,defers,maypanic")
 F3_KEY = "field-sensitive-accesspath-divergence"
@@ -180,6 +184,11 @@ def run_entry_points(d, analyses, work, floor):
             res2, _, _, _ = parse_res(out2)
             if a in res2 and res2[a]["status"] == "timeout":
                 results[a] = dict(res[a], confirmed=True)
+                # a baseline that does not return: its configuration variants would only repeat the finding
+                for v in VARIANTS.get(a, []):
+                    if v in todo:
+                        todo.remove(v)
+                        results[v] = {"status": "skipped", "secs": 0.0, "budget": 0.0, "detail": "baseline %s timed out" % a}
             elif a in res2:
                 results[a] = dict(res2[a], flaky_timeout=res[a]["secs"])
             else:
@@ -224,11 +233,23 @@ def diagnose_fs_timeout(d, work):
 
 
 def first_line(s):
+    """stable name of a panic: first line of the message, cut before program-specific parts (` in <function>`, ` at <position>`)"""
     s = s.strip().strip('"').replace("\\n", "\n")
     l = s.split("\n")[0] if s else ""
+    l = re.split(r" in | at |: ", l)[0] if not l.startswith("runtime error") else l
     l = re.sub(r"0x[0-9a-f]+", "0x?", l)
     l = re.sub(r"\d+", "N", l)
-    return l[:80].strip().replace(" ", "_")
+    return l[:70].strip().replace(" ", "_")
+
+
+def panic_site(s):
+    """the function of /repo in which the panic was raised (first ar-go-tools frame below panic())"""
+    s = s.replace("\\n", "\n").replace("\\t", "\t")
+    i = s.find("\npanic(")
+    m = re.search(r"github\.com/awslabs/ar-go-tools/[\w/\-]*?(\w+)\.([\w\(\)\*\.\[\]]+?)\(", s[i if i >= 0 else 0:])
+    if not m:
+        return "?"
+    return (m.group(1) + "." + re.sub(r"[\(\)\*]", "", m.group(2)).replace("[...]", "")).strip(".")
 
 
 # ---------------------------------------------------------------------------------- the check
@@ -253,7 +274,8 @@ def run(chk):
     st = tie["stats"]
 
     # ---- crash / timeout corpus
-    dirs = sorted(os.path.join(CORPUS, d) for d in os.listdir(CORPUS) if os.path.exists(os.path.join(CORPUS, d, "main.go")))
+    dirs = sorted(os.path.join(CORPUS, d) for d in os.listdir(CORPUS) if os.path.exists(os.path.join(CORPUS, d, "main.go"))
+                  and not (quick and d in THOROUGH_ONLY))
     ngen = 2 if quick else 10
     dirs += [write_generated(work, chk.seed, k) for k in range(ngen)]
     analyses = QUICK_ANALYSES if quick else ALL_ANALYSES
@@ -262,11 +284,12 @@ def run(chk):
     allres = {}
     gens = {}
     with concurrent.futures.ThreadPoolExecutor(max_workers=max(2, min(6, vlib.NCPU // 3))) as ex:
-        futs = {ex.submit(run_entry_points, d, analyses, work, floor): d for d in dirs}
+        futs = {ex.submit(run_entry_points, d, analyses + (",escape" if quick and os.path.basename(d) in ESCAPE_QUICK else ""), work, floor): d
+                for d in dirs}
         for f in concurrent.futures.as_completed(futs):
             d = futs[f]
             allres[d], gens[d] = f.result()
-    counts = {"ok": 0, "err": 0, "panic": 0, "timeout": 0, "flaky_timeout": 0, "notrun": 0, "load-error": 0}
+    counts = {"ok": 0, "err": 0, "panic": 0, "timeout": 0, "flaky_timeout": 0, "notrun": 0, "skipped": 0, "load-error": 0}
     f3_seen = False
     for d in sorted(allres):
         name = os.path.basename(d)
@@ -281,7 +304,7 @@ def run(chk):
             counts[stt] = counts.get(stt, 0) + 1
             if stt == "panic":
                 found_concrete = True
-                key = "panic:%s:%s" % (a, first_line(r["detail"]))
+                key = "panic:%s@%s:%s" % (first_line(r["detail"]), panic_site(r["detail"]), a)
                 rd = chk.replay_dir(key)
                 shutil.copytree(d, os.path.join(rd, name))
                 open(os.path.join(rd, "replay.txt"), "w").write(
